@@ -341,7 +341,7 @@ func rulePassOrder(c *core.Ctx) {
 				if f.Name() == "topologicalSortTypes" {
 					continue
 				}
-				path := c.PathTo(f, func(g *types.Func) bool { return g == gut }, func(g *types.Func) bool { return !core.InModule(g) })
+				path := c.PathToStatic(f, func(g *types.Func) bool { return g == gut }, func(g *types.Func) bool { return !core.InModule(g) })
 				if path == nil {
 					continue
 				}
